@@ -337,6 +337,67 @@ fn cmd_avcc(args: &[&str], out: &mut Vec<String>) {
     };
     out.push(format!("sps=[{}]", gs(|| it(rec.sequence_parameter_sets().collect()))));
     out.push(format!("pps=[{}]", gs(|| it(rec.picture_parameter_sets().collect()))));
+    // the other Iterator entry points must agree with next(): nth(k) for every k, count(), last(), skip(k).next()
+    let alt = gs(|| {
+        let mut bad: Vec<String> = Vec::new();
+        for which in 0..2 {
+            let mk = || -> Box<dyn Iterator<Item = Result<&[u8], h264_reader::avcc::ParamSetError>> + '_> {
+                if which == 0 {
+                    Box::new(rec.sequence_parameter_sets())
+                } else {
+                    Box::new(rec.picture_parameter_sets())
+                }
+            };
+            let show = |r: Option<Result<&[u8], h264_reader::avcc::ParamSetError>>| match r {
+                None => "None".to_string(),
+                Some(Ok(b)) => hex(b),
+                Some(Err(e)) => format!("E:{}", canon(&e)),
+            };
+            // reference: repeated next(), stopping after the first error (the iterator does not advance past one)
+            let mut reference: Vec<String> = Vec::new();
+            let mut i = mk();
+            for _ in 0..40 {
+                let x = i.next();
+                let stop = !matches!(x, Some(Ok(_)));
+                reference.push(show(x));
+                if stop {
+                    break;
+                }
+            }
+            let clean = reference.last().map(|s| s == "None").unwrap_or(false);
+            for k in 0..reference.len() {
+                let a = show(mk().nth(k));
+                let b = show(mk().skip(k).next());
+                // nth(k) over an error at j < k is that error again or anything later: only judge k up to the first error
+                if a != reference[k] || b != reference[k] {
+                    bad.push(format!("{}nth{}:{}|{}|{}", which, k, a, b, reference[k]));
+                }
+            }
+            if clean {
+                let n = reference.len() - 1;
+                if mk().count() != n {
+                    bad.push(format!("{}count", which));
+                }
+                let l = show(mk().last());
+                let want = if n == 0 { "None".to_string() } else { reference[n - 1].clone() };
+                if l != want {
+                    bad.push(format!("{}last", which));
+                }
+                let (lo, hi) = mk().size_hint();
+                if lo > n || hi.map(|h| h < n).unwrap_or(false) {
+                    bad.push(format!("{}size_hint", which));
+                }
+            }
+        }
+        if bad.is_empty() {
+            "same".to_string()
+        } else {
+            format!("DIFF({})", bad.join(";"))
+        }
+    });
+    if alt != "same" {
+        out.push(format!("alt={}", alt));
+    }
     out.push(format!(
         "ctx={}",
         gs(|| match rec.create_context() {
